@@ -14,11 +14,11 @@ open LyModel LyModel.Tree
 
 mutual
 def normN : DNode → DNode
-  | .inner s _ _ ks => .inner s {} [] (normL ks)
+  | .inner s _ _ ks => .inner s {} [] (normL13 ks)
   | .term s f _ v => .term s { dflt := f.dflt } [] v
-def normL : List DNode → List DNode
+def normL13 : List DNode → List DNode
   | [] => []
-  | x :: xs => normN x :: normL xs
+  | x :: xs => normN x :: normL13 xs
 end
 
 mutual
@@ -35,75 +35,75 @@ theorem dataEq_iff_norm : ∀ x y, dataEq true x y = true ↔ normN x = normN y
       exact ⟨⟨a, b⟩, c⟩
   | .inner .., .term .. => by simp [dataEq, normN]
   | .term .., .inner .. => by simp [dataEq, normN]
-theorem dataEqL_iff_norm : ∀ l l', dataEqL true l l' = true ↔ normL l = normL l'
-  | [], [] => by simp [dataEqL, normL]
+theorem dataEqL_iff_norm : ∀ l l', dataEqL true l l' = true ↔ normL13 l = normL13 l'
+  | [], [] => by simp [dataEqL, normL13]
   | a :: as, b :: bs => by
-    simp only [dataEqL, normL, Bool.and_eq_true, List.cons.injEq]
+    simp only [dataEqL, normL13, Bool.and_eq_true, List.cons.injEq]
     rw [dataEq_iff_norm a b, dataEqL_iff_norm as bs]
-  | [], _ :: _ => by simp [dataEqL, normL]
-  | _ :: _, [] => by simp [dataEqL, normL]
+  | [], _ :: _ => by simp [dataEqL, normL13]
+  | _ :: _, [] => by simp [dataEqL, normL13]
 end
 
-theorem normL_eq_map : ∀ l, normL l = l.map normN
+theorem normL_eq_map13 : ∀ l, normL13 l = l.map normN
   | [] => rfl
-  | x :: xs => by simp [normL, normL_eq_map xs]
+  | x :: xs => by simp [normL13, normL_eq_map13 xs]
 
 @[simp] theorem sid_normN (x : DNode) : (normN x).sid = x.sid := by cases x <;> rfl
 @[simp] theorem val_normN (x : DNode) : (normN x).val = x.val := by cases x <;> rfl
 @[simp] theorem isTerm_normN (x : DNode) : (normN x).isTerm = x.isTerm := by cases x <;> rfl
-@[simp] theorem kids_normN (x : DNode) : (normN x).kids = normL x.kids := by cases x <;> rfl
+@[simp] theorem kids_normN (x : DNode) : (normN x).kids = normL13 x.kids := by cases x <;> rfl
 
 mutual
 theorem normN_idem : ∀ x, normN (normN x) = normN x
   | .inner s f m ks => by simp [normN, normL_idem ks]
   | .term s f m v => by simp [normN]
-theorem normL_idem : ∀ l, normL (normL l) = normL l
+theorem normL_idem : ∀ l, normL13 (normL13 l) = normL13 l
   | [] => rfl
-  | x :: xs => by simp [normL, normN_idem x, normL_idem xs]
+  | x :: xs => by simp [normL13, normN_idem x, normL_idem xs]
 end
 
-theorem normL_append (a b : List DNode) : normL (a ++ b) = normL a ++ normL b := by
-  simp [normL_eq_map]
+theorem normL_append13 (a b : List DNode) : normL13 (a ++ b) = normL13 a ++ normL13 b := by
+  simp [normL_eq_map13]
 
 /-! ### what does not depend on the removed parts -/
 
 theorem takeWhile_normL (p : Nat → Bool) : ∀ l : List DNode,
-    (normL l).takeWhile (fun c => p c.sid) = normL (l.takeWhile (fun c => p c.sid))
+    (normL13 l).takeWhile (fun c => p c.sid) = normL13 (l.takeWhile (fun c => p c.sid))
   | [] => rfl
   | x :: xs => by
-    simp only [normL, List.takeWhile_cons, sid_normN]
+    simp only [normL13, List.takeWhile_cons, sid_normN]
     split
-    · simp [normL, takeWhile_normL p xs]
+    · simp [normL13, takeWhile_normL p xs]
     · rfl
 
 theorem dropWhile_normL (p : Nat → Bool) : ∀ l : List DNode,
-    (normL l).dropWhile (fun c => p c.sid) = normL (l.dropWhile (fun c => p c.sid))
+    (normL13 l).dropWhile (fun c => p c.sid) = normL13 (l.dropWhile (fun c => p c.sid))
   | [] => rfl
   | x :: xs => by
-    simp only [normL, List.dropWhile_cons, sid_normN]
+    simp only [normL13, List.dropWhile_cons, sid_normN]
     split
     · exact dropWhile_normL p xs
-    · simp [normL]
+    · simp [normL13]
 
-theorem keysOf_normL (S : Schema) (l : List DNode) : keysOf S (normL l) = normL (keysOf S l) :=
+theorem keysOf_normL (S : Schema) (l : List DNode) : keysOf S (normL13 l) = normL13 (keysOf S l) :=
   takeWhile_normL (fun s => S.isKey s) l
 
-theorem noKeys_normL (S : Schema) (l : List DNode) : noKeys S (normL l) = normL (noKeys S l) :=
+theorem noKeys_normL (S : Schema) (l : List DNode) : noKeys S (normL13 l) = normL13 (noKeys S l) :=
   dropWhile_normL (fun s => S.isKey s) l
 
-theorem cmpKeys_normL (S : Schema) : ∀ a b : List DNode, cmpKeys S (normL a) (normL b) = cmpKeys S a b
-  | [], _ => by simp [normL, cmpKeys]
-  | _ :: _, [] => by simp [normL, cmpKeys]
+theorem cmpKeys_normL (S : Schema) : ∀ a b : List DNode, cmpKeys S (normL13 a) (normL13 b) = cmpKeys S a b
+  | [], _ => by simp [normL13, cmpKeys]
+  | _ :: _, [] => by simp [normL13, cmpKeys]
   | x :: xs, y :: ys => by
-    simp only [normL, cmpKeys, sid_normN, val_normN]
+    simp only [normL13, cmpKeys, sid_normN, val_normN]
     rw [cmpKeys_normL S xs ys]
 
-theorem keysEq_normL : ∀ a b : List DNode, keysEq (normL a) (normL b) = keysEq a b
+theorem keysEq_normL : ∀ a b : List DNode, keysEq (normL13 a) (normL13 b) = keysEq a b
   | [], [] => rfl
   | [], _ :: _ => rfl
   | _ :: _, [] => rfl
   | x :: xs, y :: ys => by
-    simp only [normL, keysEq, sid_normN, val_normN]
+    simp only [normL13, keysEq, sid_normN, val_normN]
     rw [keysEq_normL xs ys]
 
 theorem cmpInst_normN (S : Schema) (x y : DNode) : cmpInst S (normN x) (normN y) = cmpInst S x y := by
@@ -138,9 +138,9 @@ theorem matchP_congr_norm {S : Schema} {d d' x x' : DNode} (hd : S.isDupInst d.s
   have h2 := matchP_normN (x := x') hd'
   rw [← h1, ← h2, hdd, hx]
 
-theorem keysLead_normL (S : Schema) (l : List DNode) : keysLead S (normL l) = keysLead S l := by
+theorem keysLead_normL (S : Schema) (l : List DNode) : keysLead S (normL13 l) = keysLead S l := by
   simp only [keysLead, noKeys_normL]
-  rw [normL_eq_map, List.all_map]
+  rw [normL_eq_map13, List.all_map]
   apply List.all_congr rfl
   intro y
   simp
@@ -153,27 +153,27 @@ theorem goodN_normN (S : Schema) : ∀ x, goodN S (normN x) = goodN S x
   | .term s f m v => by
     simp only [normN, goodN]
     rfl
-theorem goodL_normL (S : Schema) : ∀ l, goodL S (normL l) = goodL S l
+theorem goodL_normL (S : Schema) : ∀ l, goodL S (normL13 l) = goodL S l
   | [] => rfl
   | x :: xs => by
-    simp only [normL, goodL, goodN_normN S x, goodL_normL S xs]
+    simp only [normL13, goodL, goodN_normN S x, goodL_normL S xs]
     congr 2
-    rw [normL_eq_map, List.all_map]
+    rw [normL_eq_map13, List.all_map]
     apply List.all_congr rfl
     intro y
     exact nlt_normN S x y
 end
 
-theorem goodT_normL (S : Schema) (l : List DNode) : goodT S (normL l) = goodT S l := by
+theorem goodT_normL (S : Schema) (l : List DNode) : goodT S (normL13 l) = goodT S l := by
   simp only [goodT, goodL_normL, keysLead_normL]
 
-theorem goodT_congr_norm {S : Schema} {l l' : List DNode} (h : normL l = normL l') : goodT S l = goodT S l' := by
+theorem goodT_congr_norm {S : Schema} {l l' : List DNode} (h : normL13 l = normL13 l') : goodT S l = goodT S l' := by
   rw [← goodT_normL S l, ← goodT_normL S l', h]
 
 theorem goodN_congr_norm {S : Schema} {x x' : DNode} (h : normN x = normN x') : goodN S x = goodN S x' := by
   rw [← goodN_normN S x, ← goodN_normN S x', h]
 
-theorem goodL_congr_norm {S : Schema} {l l' : List DNode} (h : normL l = normL l') : goodL S l = goodL S l' := by
+theorem goodL_congr_norm {S : Schema} {l l' : List DNode} (h : normL13 l = normL13 l') : goodL S l = goodL S l' := by
   rw [← goodL_normL S l, ← goodL_normL S l', h]
 
 end LyModel.Diff
@@ -230,7 +230,7 @@ theorem look_mem {S : Schema} {l : List DNode} {q x : DNode} (h : look S l q = s
 
 /-- two good sibling lists with the same lookups up to `normN` are equal up to `normN` -/
 theorem normL_eq_of_look {S : Schema} (K : KeyOrder S) {l₁ l₂ : List DNode} (h₁ : goodL S l₁ = true) (h₂ : goodL S l₂ = true)
-    (h : ∀ q, Dom S q → (look S l₁ q).map normN = (look S l₂ q).map normN) : normL l₁ = normL l₂ := by
+    (h : ∀ q, Dom S q → (look S l₁ q).map normN = (look S l₂ q).map normN) : normL13 l₁ = normL13 l₂ := by
   have key : KL.All₂ (fun x y => normN x = normN y) l₁ l₂ := by
     apply (ordOf S K).forall2_of_find? (R := fun x y => normN x = normN y) (goodL_allDom K h₁) (goodL_allDom K h₂) (goodL_sorted K h₁) (goodL_sorted K h₂)
     · intro x hx
@@ -254,7 +254,7 @@ theorem normL_eq_of_look {S : Schema} (K : KeyOrder S) {l₁ l₂ : List DNode} 
   clear h h₁ h₂
   induction key with
   | nil => rfl
-  | cons hab _ ih => simp [normL, hab, ih]
+  | cons hab _ ih => simp [normL13, hab, ih]
 
 /-! ## created subtrees -/
 
@@ -272,9 +272,9 @@ mutual
 theorem normN_mkCreated : ∀ x, normN (mkCreated x) = normN x
   | .inner s f m ks => by simp [mkCreated, normN, normL_mkCreatedL ks]
   | .term s f m v => by simp [mkCreated, normN]
-theorem normL_mkCreatedL : ∀ l, normL (mkCreatedL l) = normL l
+theorem normL_mkCreatedL : ∀ l, normL13 (mkCreatedL l) = normL13 l
   | [] => rfl
-  | x :: xs => by simp [mkCreatedL, normL, normN_mkCreated x, normL_mkCreatedL xs]
+  | x :: xs => by simp [mkCreatedL, normL13, normN_mkCreated x, normL_mkCreatedL xs]
 end
 
 theorem mkCreatedL_append : ∀ a b : List DNode, mkCreatedL (a ++ b) = mkCreatedL a ++ mkCreatedL b
@@ -422,7 +422,7 @@ theorem apply_create_plain {S : Schema} (K : KeyOrder S) : ∀ (n : Nat) (hp : B
   induction n with
   | zero =>
     intro hp c L hh
-    have := height_pos c
+    have := height_pos13 c
     omega
   | succ n ih =>
     intro hp c L hh hpl hg
